@@ -710,6 +710,14 @@ func checkC20(c *Ctx) {
 			reqs = append(reqs, "evars "+impl.HexW([]byte(sc.SDL()))+" "+impl.HexW([]byte(d.Text))+" 0 "+impl.SexpGoVal(vars))
 			ctxs = append(ctxs, judgeCtx{entry: "vars", names: []string{""}, limit: -1, input: d.Text, replay: map[string]any{"schema": sc.SDL(), "defect": defect}})
 		}
+		// json.Number values at the top level of the variables map (a decoder with UseNumber), well-formed and not
+		hsdl := "type Query { f(i: Int, fl: Float, s: String, d: ID, b: Boolean, l: [Int]): Int }"
+		hdoc := "query($i: Int, $fl: Float, $s: String, $d: ID, $l: [Int]) { f(i: $i, fl: $fl, s: $s, d: $d, l: $l) }"
+		for _, v := range []string{"(m I (x69 (jn x3132)))", "(m I (x666c (jn x312e35)))", "(m I (x64 (jn x37)))", "(m I (x73 (jn x3132)))", "(m I (x6c (jn x35)))",
+			"(m I (x69 (jn x312e35)))", "(m I (x666c (jn x78)))", "(m I (x69 (jn x3132)) (x666c (jn x32)) (x64 (jn x39)))", "(m I (x69 (jn x39393939393939393939393939393939)))"} {
+			reqs = append(reqs, "evars "+impl.HexW([]byte(hsdl))+" "+impl.HexW([]byte(hdoc))+" 0 "+v)
+			ctxs = append(ctxs, judgeCtx{entry: "vars", names: []string{""}, limit: -1, input: hdoc + " " + v, replay: map[string]any{"schema": hsdl, "vars": v}})
+		}
 		s.run(reqs, ctxs)
 	}
 
